@@ -305,6 +305,12 @@ func (w *World) execMap(st *Step) *Violation {
 
 	switch st.Op {
 	case "m.set":
+		if idx < 0 {
+			if _, refuse := w.collisionRefusal(c, km, idx); refuse {
+				// the model predicts a collision-limit refusal of this insertion
+				return w.execRefusedSet(st, c, m, key, km, nil, nil)
+			}
+		}
 		val, mv, err := w.materialize(st.V, c.Owner, c)
 		if err != nil {
 			if err == errSkip {
@@ -319,11 +325,6 @@ func (w *World) execMap(st *Step) *Violation {
 			if ch := childOf(mv); ch != nil && childOf(c.Vals[idx]) == ch {
 				return nil
 			}
-		}
-		if refuse, ok := w.collisionRefusal(c, km, idx); ok {
-			// the model predicts a collision-limit refusal of this insertion
-			_ = refuse
-			return w.execRefusedSet(st, c, m, key, km, val, mv)
 		}
 		existing, err := m.Set(w.cmp, w.hip, key, val)
 		if err != nil {
